@@ -73,6 +73,15 @@ func GenScenario(family string, id int, rng *rand.Rand) Scenario {
 			sc.FailK[i] = []int{0, 1, 2, 3}[rng.Intn(4)]
 			sc.ContF[i] = rng.Intn(2) == 0
 		}
+	case "retry":
+		// first run of a retry pair: failures, sometimes a stop
+		sc.Stop = rng.Intn(3) == 0
+		for i := 0; i < n; i++ {
+			sc.FailK[i] = []int{0, 0, 1, 2, 99, 99}[rng.Intn(6)]
+		}
+		if rng.Intn(3) == 0 {
+			withHandlers()
+		}
 	case "order":
 		if rng.Intn(4) == 0 {
 			withHandlers()
